@@ -1,8 +1,8 @@
 #!/bin/bash
-# C17: circuit package rewritten onto the cooperative scheduler (sync.Pool, atomic.Pointer).
+# C17: p2p and circuit packages rewritten onto the cooperative scheduler (sync.Pool, atomic.Pointer).
 set -e
 WORK="$1"; HERE="$(cd "$(dirname "$0")" && pwd)"; . "$HERE/lib.sh"
 build_rewriter "$WORK"
 mkdir -p "$WORK/ov"
-"$WORK/verif-rewrite" -out "$WORK/ov" -sched circuit >&2
+"$WORK/verif-rewrite" -out "$WORK/ov" -sched p2p,circuit >&2
 echo "-overlay $WORK/ov/overlay.json"
